@@ -31,8 +31,11 @@ def _cases(tier, rng, dist):
                             continue
                         yield {"table": t, "method": meth, "alts": alt, "in_place": False, "pynum": (sum(cells) % 2 == 0), "rot": False}
     # very many randomizations (beyond 2^16, not a multiple of it): every one of them counts
-    for k in range(2 if tier == "quick" else 6):
-        yield {"big": True, "seed": rng.randint(0, 10**6), "reps": 70001 + 7 * k, "m": 2 + k % 2, "method": ["minP", "maxT"][k % 2], "alts": ["greater", "two-sided"][(k // 2) % 2],
+    from .. import sizes
+    bigreps = [70001 + 7 * k for k in range(2 if tier == "quick" else 6)]
+    bigreps += sizes.extra_sizes(["npc"], bigreps, cap=250000, lo=16)[:4]        # just beyond every integer constant of the source
+    for k, reps_ in enumerate(bigreps):
+        yield {"big": True, "seed": rng.randint(0, 10**6), "reps": reps_, "m": 2 + k % 2, "method": ["minP", "maxT"][k % 2], "alts": ["greater", "two-sided"][(k // 2) % 2],
                "table": [[0]], "in_place": False, "pynum": True, "rot": False}
     for _ in range(300 if tier == "quick" else 3000):
         reps, m = rng.randint(1, 6), rng.randint(1, 3)
